@@ -112,14 +112,25 @@ namespace Fastrace
 theorem th_withSpans (s : Sys) (x : List (String × SpanVal)) (t2 : Nat) :
     ({ s with spans := x } : Sys).th t2 = s.th t2 := rfl
 
+theorem Sys.enterExitLocal_th_other (s : Sys) (t t2 : Nat) (hne : t2 ≠ t) : (s.enterExitLocal t).th t2 = s.th t2 := by
+  unfold Sys.enterExitLocal
+  dsimp only
+  split
+  · rfl
+  · rw [Sys.putCtr_th_other _ _ _ _ hne, Sys.th_setTh_other _ _ _ _ hne]
+
+theorem foldl_enterExitLocal_th_other {α : Type} (l : List α) (s : Sys) (t t2 : Nat) (hne : t2 ≠ t) :
+    (l.foldl (fun s _ => s.enterExitLocal t) s).th t2 = s.th t2 := by
+  induction l generalizing s with
+  | nil => rfl
+  | cons x xs ih => simp only [List.foldl]; rw [ih, Sys.enterExitLocal_th_other _ _ _ hne]
+
 theorem Sys.runClosure_th_other (s : Sys) (t t2 : Nat) (cl : Closure) (hne : t2 ≠ t) :
     (s.runClosure t cl).th t2 = s.th t2 := by
   unfold Sys.runClosure
   split
-  · dsimp only
-    split
-    · rfl
-    · rw [Sys.putCtr_th_other _ _ _ _ hne, Sys.th_setTh_other _ _ _ _ hne]
+  · exact Sys.enterExitLocal_th_other s t t2 hne
+  · exact foldl_enterExitLocal_th_other _ s t t2 hne
   · dsimp only
     rw [Sys.putCtr_th_other _ _ _ _ hne, Sys.th_setTh_other _ _ _ _ hne]
   · split
@@ -322,6 +333,17 @@ theorem Sys.collectUnder_th_other (s : Sys) (t t2 : Nat) (x : String) (hne : t2 
       rw [th_withLspans, Sys.putCtr_th_other _ _ _ _ hne, Sys.th_setTh_other _ _ _ _ hne]
   · rfl
 
+theorem Sys.rootOp_th_other (s : Sys) (t t2 : Nat) (v n : String) (tr sp : Nat) (b : Bool) (hne : t2 ≠ t) :
+    (s.rootOp t v n tr sp b).1.th t2 = s.th t2 := by
+  unfold Sys.rootOp
+  split
+  · rfl
+  · split
+    · rfl
+    · split
+      · rw [Sys.newSpan_th_other _ _ _ _ _ _ _ hne, Sys.sendCmd_th_other _ _ _ _ _ hne]; rfl
+      · rw [Sys.newSpan_th_other _ _ _ _ _ _ _ hne]
+
 /-- **an operation of thread `t` leaves every other thread's local state exactly as it was** -/
 theorem exec_th_other (s : Sys) (t t2 : Nat) (op : Op) (hne : t2 ≠ t) : (exec s t op).1.th t2 = s.th t2 := by
   cases op with
@@ -332,17 +354,22 @@ theorem exec_th_other (s : Sys) (t t2 : Nat) (op : Op) (hne : t2 ≠ t) : (exec 
     cases hr : s.register t with
     | none => rfl
     | some s' => exact Sys.register_th_other s s' t t2 hr hne
-  | root v n tr sp b =>
+  | root v n tr sp b => simp only [exec]; exact Sys.rootOp_th_other s t t2 v n tr sp b hne
+  | rootFrom v n p tp =>
+    simp only [exec]
+    split
+    · rfl
+    · rfl
+    · split
+      · rfl
+      · exact Sys.rootOp_th_other s t t2 v n _ _ _ hne
+  | rootFromLocal v n tp =>
     simp only [exec]
     split
     · rfl
     · split
       · rfl
-      · split
-        · dsimp only
-          rw [Sys.newSpan_th_other _ _ _ _ _ _ _ hne, Sys.sendCmd_th_other _ _ _ _ _ hne]; rfl
-        · dsimp only
-          rw [Sys.newSpan_th_other _ _ _ _ _ _ _ hne]
+      · exact Sys.rootOp_th_other s t t2 v n _ _ _ hne
   | child1 v n p =>
     simp only [exec]
     split
